@@ -68,7 +68,7 @@ Proof.
   fs. split; [reflexivity|]. split.
   { unfold inv, cursor_ok, pad_ok. fs. rewrite Hn, Ha, Hs, Ht. split; [reflexivity|]. split; [intros H; discriminate H|].
     split; [cbn; lia|exact E1]. }
-  split; [unfold clean; fs; exact E2|]. split; [exact Hp|]. split; [exact Hs|]. split; [exact Ha|].
+  split; [unfold clean; fs; right; exact E2|]. split; [exact Hp|]. split; [exact Hs|]. split; [exact Ha|].
   split; [reflexivity|]. split; [reflexivity|].
   intros rest. unfold lbits, stream_wbits. fs. rewrite Rd. f_equal. f_equal. f_equal.
   fold q. fold w. unfold wb. destruct ((q =? 0) || (q =? 1))%Z; f_equal; lia.
